@@ -189,8 +189,13 @@ func (m *MuxMon) Step(h *MuxH, i int) (vs []Viol) {
 			}
 			m.AutoSeen = append(m.AutoSeen, pid)
 		}
+		live := m.find(pid) >= 0
 		m.Streams = append(m.Streams, mStream{pid, c.Op.ST, c.Op.Desc})
-		delete(m.LastCC, pid)
+		if !live {
+			// a PID handed out while a stream is still using it keeps that stream's counter history: its packets
+			// go on in the same PID as far as a receiver can tell (C05)
+			delete(m.LastCC, pid)
+		}
 		m.Dirty = true
 		return
 	case "rm":
